@@ -423,10 +423,10 @@ func rowsCanonAs(inferred, typed *reg.Col) (out []any) {
 
 // C01 — block encode -> decode is the identity for every column type and nesting.
 func C01(c *vk.Ctx) {
-	c.Rule("every column composition of the generated registry (45 base columns; Array / Nullable / LowCardinality / Map(String,.) / Map(.,String) / Tuple(.,String) wrappers wherever the exported generic constructors type-check, to depth 2) x every value sequence of length <= L (quick 2, thorough 3) over the per-type boundary alphabet (0, +-1, min, max, NaN/Inf/-0/denormal, strings of 0/1/127/128 bytes, nulls, empty and nested arrays, range ends of the date types) x revisions {54460, 54453, 51902} x output buffer {empty, 1 byte, 9 bytes pre-filled}; plus size-triggered cases (LowCardinality dictionaries of 254..257 and 65534..65537 distinct values, strings of 16383 / 16384 / 2^20-1 / 2^20 / 2^20+1 / 2^21-1 / 2^21 bytes in String, Array(String), LowCardinality(String) and Nullable(String), decoded into a fresh and into a used-and-Reset column). Oracles: typed decode into a fresh column, typed decode of the same contents as the reference server writes them (LowCardinality keys of 8, 16 and 64 bits) and as the server spells the type (Decimal(P, S) at both ends of each width's precision range, explicit time zones; typed and inferred targets), decode through Results.Auto where ColAuto.Infer accepts the type, independent reference decode (refcol) with exact consumption, buffer independence, independence from a second object of the same composition and an unrelated column encoded and decoded in between (no hidden shared state), re-encode equality, WriteBlock+Flush = EncodeBlock; the same run in the purego build must produce the same transcript. distinct_nontrivial = (composition, value sequence) cases with at least one row.")
+	c.Rule("every column composition of the generated registry (45 base columns; Array / Nullable / LowCardinality / Map(String,.) / Map(.,String) / Tuple(.,String) wrappers wherever the exported generic constructors type-check, to depth 2) x every value sequence of length <= L (quick 2, thorough 4; 5 for the 45 base columns) over the per-type boundary alphabet (0, +-1, min, max, NaN/Inf/-0/denormal, strings of 0/1/127/128 bytes, nulls, empty and nested arrays, range ends of the date types) x revisions {54460, 54453, 51902} x output buffer {empty, 1 byte, 9 bytes pre-filled}; plus size-triggered cases (LowCardinality dictionaries of 254..257 and 65534..65537 distinct values, strings of 16383 / 16384 / 2^20-1 / 2^20 / 2^20+1 / 2^21-1 / 2^21 bytes in String, Array(String), LowCardinality(String) and Nullable(String), decoded into a fresh and into a used-and-Reset column). Oracles: typed decode into a fresh column, typed decode of the same contents as the reference server writes them (LowCardinality keys of 8, 16 and 64 bits) and as the server spells the type (Decimal(P, S) at both ends of each width's precision range, explicit time zones; typed and inferred targets), decode through Results.Auto where ColAuto.Infer accepts the type, independent reference decode (refcol) with exact consumption, buffer independence, independence from a second object of the same composition and an unrelated column encoded and decoded in between (no hidden shared state), re-encode equality, WriteBlock+Flush = EncodeBlock; the same run in the purego build must produce the same transcript. distinct_nontrivial = (composition, value sequence) cases with at least one row.")
 	L := 2
 	if !c.Quick() {
-		L = 3
+		L = 4
 	}
 	for ei, e := range regEntries(c) {
 		if c.Only == "" && !c.Mine(int64(ei)) {
@@ -443,7 +443,11 @@ func C01(c *vk.Ctx) {
 			continue
 		}
 		var th uint64
-		for _, idx := range seqsOver(na, L) {
+		le := L
+		if !c.Quick() && e.Depth == 0 {
+			le = L + 1
+		}
+		for _, idx := range seqsOver(na, le) {
 			id := fmt.Sprintf("%s/%v", e.Label, idx)
 			if c.Only != "" && c.Only != id {
 				continue
